@@ -254,7 +254,9 @@ Fixpoint exec (c : cfg) (s : st) (ls : list label) : option st :=
   | l :: r => match gstep c s l with Some s' => exec c s' r | None => None end
   end.
 
-(* run_storage prologue: stop_requested := false; evaluation_time := start_time *)
+(* run_storage prologue: stop_requested := false; evaluation_time := start_time.  The reset comes BEFORE
+   graph.start: the first phase is PStart, in which stop requests (from a start hook or from another thread)
+   already land and stay; the first loop test then sees them (PTop: only LExit is enabled). *)
 Definition init (c : cfg) (w0 : Z) : st :=
   mkSt (c_start c) [] false false 0 PStart w0 0 [] false.
 
@@ -405,6 +407,7 @@ Definition decode_label (l : line) : label :=
   match l with
   | [] => LBad
   | k :: a =>
+    if k =? 9 then LNode else          (* a node's start hook begins (placement marker) *)
     if k =? 10 then LStarted else
     if k =? 11 then LTop else
     if k =? 12 then match a with [w] => LRead w | _ => LBad end else
@@ -428,6 +431,7 @@ Definition decode_fev (l : line) : list fev :=
   match l with
   | [] => [FBad]
   | k :: a =>
+    if k =? 9 then [] else
     if k =? 10 then [FStarted] else
     if k =? 16 then match a with [t; w] => [FEvalBegin t w] | _ => [FBad] end else
     if k =? 17 then [FPushNode] else
